@@ -116,6 +116,9 @@ pub fn nc_values() -> Vec<(String, NcSpec)> {
         ("excluded v6/64".into(), x(SubtreeSpec::Ip(cidr6.clone()))),
         ("permitted+excluded".into(), NcSpec { permitted: vec![SubtreeSpec::Dns("example.com".into())], excluded: vec![SubtreeSpec::Ip(cidr4.clone())] }),
         ("two permitted".into(), NcSpec { permitted: vec![SubtreeSpec::Dns("example.com".into()), SubtreeSpec::Ip(cidr6)], excluded: vec![] }),
+        // (appended: other code addresses earlier values by position)
+        ("permitted dns with leading dot".into(), p(SubtreeSpec::Dns(".example.com".into()))),
+        ("excluded dns with leading dot + rfc822 with leading dot".into(), NcSpec { permitted: vec![], excluded: vec![SubtreeSpec::Dns(".bad.example.com".into()), SubtreeSpec::Email(".example.com".into())] }),
     ]
 }
 
